@@ -21,27 +21,33 @@ def run_leg(ctx):
         res["error"] = "harness h14 does not build against the tree under test"
         return res
     src = os.path.join(ctx.out, "zoo_sources")
-    out = os.path.join(ctx.out, "zoo_run")
     os.makedirs(src, exist_ok=True)
     for f in os.listdir(src):
         if f.endswith(".cairo"):
             os.unlink(os.path.join(src, f))
     res["sources"] = zoo.write(src)
-    vlib.clean_dir(out)
-    env = vlib.env_offline()
-    rc, o = vlib.run([os.path.join(vlib.HARNESS, "target", "debug", "h14run"), src, out, ctx.tier],
-                     timeout=3000, env=env)
-    sp = os.path.join(out, "summary.json")
-    if rc != 0 or not os.path.exists(sp):
-        res["error"] = "h14run failed on the zoo: " + o[-800:]
-        return res
-    s = json.load(open(sp))
     res["ok"] = True
-    res["selfchecks"] = s.get("selfchecks", 0)
-    res["runs"] = s.get("runs", 0)
-    res["functions_runnable"] = s.get("functions_runnable", 0)
-    res["not_compiled"] = json.load(open(os.path.join(out, "not_compiled.json")))
-    res["failures"] = [f for f in json.load(open(os.path.join(out, "runtime_failures.json"))) if f.get("leg") == "C01"]
-    ctx.log("zoo self-checks: %d chk runs, %d failures, %d zoo files not compiled"
+    for mode in ("gas", "nogas"):
+        out = os.path.join(ctx.out, "zoo_run_" + mode)
+        vlib.clean_dir(out)
+        env = vlib.env_offline()
+        if mode == "nogas":
+            # second compilation of the same sources without the gas statements (as `cairo-run` without --available-gas):
+            # optimisation passes see different block structures; only the chk_* functions are run
+            env["H14_NO_GAS"] = "1"
+        rc, o = vlib.run([os.path.join(vlib.HARNESS, "target", "debug", "h14run"), src, out, ctx.tier],
+                         timeout=3000, env=env)
+        sp = os.path.join(out, "summary.json")
+        if rc != 0 or not os.path.exists(sp):
+            res["ok"] = False
+            res["error"] = "h14run (%s) failed on the zoo: %s" % (mode, o[-800:])
+            return res
+        s = json.load(open(sp))
+        res["selfchecks"] += s.get("selfchecks", 0)
+        res["runs_" + mode] = s.get("runs", 0)
+        res["functions_runnable_" + mode] = s.get("functions_runnable", 0)
+        res["not_compiled"] += json.load(open(os.path.join(out, "not_compiled.json")))
+        res["failures"] += [f for f in json.load(open(os.path.join(out, "runtime_failures.json"))) if f.get("leg") == "C01"]
+    ctx.log("zoo self-checks (with and without gas): %d chk runs, %d failures, %d zoo files not compiled"
             % (res["selfchecks"], len(res["failures"]), len(res["not_compiled"])))
     return res
